@@ -797,7 +797,9 @@ def build_all(res, rng, thorough, do, groups, executed_kind):
     carr = ["yaml", "toml", "ini", "cli"]
     for tc in carr:
         for sc in carr:
-            tid = rng.choice(fired)
+          # the contradictory id is a registered test, or one bandit does not know (a typo, another installation's plugin): rejected either way
+          # (seeded change C13-m9 intersected only the REGISTERED ids of the two lists)
+          for tid in (rng.choice(fired), rng.choice(["B999", "B000", "X123"])):
             other = rng.choice([x for x in fired if x != tid])
             tests, skips = [other, tid], [tid]
             c = new_case("single", False, f"contradict:{tc}/{sc}")
